@@ -1,4 +1,5 @@
 import ChythonModel.Proofs.C04
+import ChythonModel.Proofs.C04Standardize
 import ChythonModel.Spec.OrganicValence
 import ChythonModel.Spec.Lewis
 /-!
@@ -816,5 +817,159 @@ theorem explicify_conserves (m m' : Mol) (h : explicify m = .ok m') :
 example : ((explicify ⟨[(1, {z := 6, implH := some 3}), (2, {z := 7, implH := some 2})],
       [(1, [(2, ⟨1, none⟩)]), (2, [(1, ⟨1, none⟩)])]⟩).toOption.map fun m => (m.ids, totalHydrogens m)) =
     some ([1, 2, 3, 4, 5, 6, 7], some 5) := by decide +kernel
+
+/-- **New atoms never collide with existing ones.** `explicify_hydrogens` keeps every existing atom number (same dict order, in
+    `_atoms` and in `_bonds`) and gives the hydrogens it adds the numbers `max + 1, max + 2, …`; so distinct numbers stay
+    distinct on *any* numbering (gaps, permuted, atom-mapped input) — nothing is overwritten. -/
+theorem explicify_numbers_fresh (m m' : Mol) (h : explicify m = .ok m') :
+    ∃ k, m'.ids = m.ids ++ List.range' (m.ids.foldl max 0 + 1) k ∧
+      m'.adj.map (·.1) = m.adj.map (·.1) ++ List.range' (m.ids.foldl max 0 + 1) k ∧
+      (∀ x ∈ m.ids, x < m.ids.foldl max 0 + 1) ∧ (m.ids.Nodup → m'.ids.Nodup) := by
+  have hlt : ∀ x ∈ m.ids, x < m.ids.foldl max 0 + 1 := fun x hx =>
+    Nat.lt_succ_of_le ((ChythonModel.Proofs.C04Standardize.le_foldl_max m.ids 0).2 x hx)
+  have hnd : ∀ k, m.ids.Nodup → (m.ids ++ List.range' (m.ids.foldl max 0 + 1) k).Nodup := by
+    intro k hn
+    rw [List.nodup_append]
+    refine ⟨hn, List.nodup_range' (step := 1) (by omega), ?_⟩
+    intro a ha b hb
+    have h1 := hlt a ha
+    have h2 := (List.mem_range'_1.mp hb).1
+    omega
+  simp only [explicify] at h
+  cases ht : toAdd m.atoms with
+  | none => simp [ht] at h
+  | some l =>
+    cases l with
+    | nil =>
+      simp only [ht, Except.ok.injEq] at h
+      subst h
+      exact ⟨0, by simp, by simp, hlt, fun hn => hn⟩
+    | cons n tl =>
+      simp only [ht, Except.ok.injEq] at h
+      subst h
+      obtain ⟨h1, h2⟩ := ChythonModel.Proofs.C04Standardize.addHydrogens_ids (n :: tl) (m.ids.foldl max 0 + 1) m
+      exact ⟨(n :: tl).length, h1, h2, hlt, fun hn => h1 ▸ hnd _ hn⟩
+
+/-- a molecule numbered 2, 5 (gap, not 1..N): the three hydrogens get 6, 7, 8 — not `len + 1 = 3 …`, which would run into atom 5 -/
+example : ((explicify ⟨[(5, {z := 8, implH := some 1}), (2, {z := 6, implH := some 2})],
+      [(5, [(2, ⟨1, none⟩)]), (2, [(5, ⟨1, none⟩)])]⟩).toOption.map fun m => m.ids) = some [5, 2, 6, 7, 8] := by decide +kernel
+
+/-! ## 9. `Standardize.__standardize`: a rule rewrites charges / radicals / bond orders and recounts the atoms it touched -/
+
+section StandardizeRule
+open ChythonModel.Model.C04Standardize ChythonModel.Proofs.C04Standardize
+
+/-- every atom carries the count `calc_implicit` gives for the molecule as it is now (`some …` = no `KeyError`) -/
+def HConsistent (m : Mol) : Prop := ∀ p ∈ m.atoms, some p.2.implH = calcImplicitMol m p.1
+
+instance (m : Mol) : Decidable (HConsistent m) := by unfold HConsistent; infer_instance
+
+/-- **The recount set `hs` of a standardize rule covers everything the rule rewrites.** For the loop body of `__standardize`
+    over *any* rule data and *any* list of yielded mappings: the atom keys are kept; every atom of `hs` ends with the count
+    `calc_implicit` gives in the rewritten molecule; every atom outside `hs` is literally the entry it was (charge, radical,
+    mark) **and** `calc_implicit` reads the same context for it as before — so an atom whose charge, radical state or any bond
+    order (covalent ↔ coordinate included) a rule changes is always recounted. -/
+theorem standardize_rule_recount (fx : RuleFix) (maps : List (List (Nat × Nat))) (m m' : Mol)
+    (h : stdRule fx maps m = some m') :
+    ∃ st, applyMappings fx maps ⟨m, [], []⟩ = some st ∧ m'.ids = m.ids ∧
+      (∀ p ∈ m'.atoms, p.1 ∈ st.hs → some p.2.implH = calcImplicitMol m' p.1) ∧
+      (∀ p ∈ m'.atoms, p.1 ∉ st.hs → p ∈ m.atoms ∧ calcImplicitMol m' p.1 = calcImplicitMol m p.1) := by
+  simp only [stdRule] at h
+  cases ha : applyMappings fx maps ⟨m, [], []⟩ with
+  | none => simp [ha] at h
+  | some st =>
+    simp only [ha] at h
+    obtain ⟨u, _⟩ := applyMappings_unch fx maps _ st ha
+    have u : Unch st.hs m st.mol := u
+    refine ⟨st, rfl, ?_⟩
+    cases he : st.hs.isEmpty with
+    | true =>
+      simp only [he, if_true, Option.some.injEq] at h
+      have hnil : st.hs = [] := by simpa using he
+      have hm : st.mol = m := by rw [hnil] at u; exact u.eq_of_nil
+      subst h
+      rw [hm, hnil]
+      exact ⟨rfl, fun p _ hp => by simp at hp, fun p hp _ => ⟨hp, rfl⟩⟩
+    | false =>
+      simp only [he, Bool.false_eq_true, if_false] at h
+      obtain ⟨h1, h2, _⟩ := changed_set_suffices st.mol m' st.hs h
+      have hcalc := fixLoop_calc st.hs st.mol m' h
+      obtain ⟨hat, _, _⟩ := fixLoop_spec st.mol st.hs st.mol m' (fun _ => rfl) h
+      refine ⟨?_, ?_, ?_⟩
+      · rw [← u.ids]
+        simp only [Mol.ids, hat, List.map_map]
+        apply List.map_congr_left
+        intro p _
+        simp only [Function.comp, fixEntry]
+        split <;> rfl
+      · intro p hp hin
+        rw [hcalc]
+        exact h1 p hp (by simpa using hin)
+      · intro p hp hout
+        have hc : st.hs.contains p.1 = false := by simpa using hout
+        have hp1 := h2 p hp hc
+        obtain ⟨f, hf, pf⟩ := u.atoms
+        rw [hf, List.mem_map] at hp1
+        obtain ⟨p0, hp0, e⟩ := hp1
+        have hk : p0.1 = p.1 := by rw [← e]; exact ((pf p0).1).symm
+        have e0 : f p0 = p0 := (pf p0).2.2.2 (hk ▸ hout)
+        have : p = p0 := by rw [← e, e0]
+        refine ⟨this ▸ hp0, ?_⟩
+        rw [hcalc, calcImplicitMol_unch u p.1 hout]
+
+/-- **A standardize rule keeps every hydrogen count right.** If every atom carried the rules' count before the rule, every atom
+    carries it afterwards — whatever the rule rewrites (charges, radical states, bond orders incl. covalent ↔ coordinate, new
+    bonds), for any mappings, with or without the `charge > 4` abort. -/
+theorem standardize_rule_keeps_counts_right (fx : RuleFix) (maps : List (List (Nat × Nat))) (m m' : Mol)
+    (h : stdRule fx maps m = some m') (hc : HConsistent m) : HConsistent m' := by
+  obtain ⟨st, _, _, hin, hout⟩ := standardize_rule_recount fx maps m m' h
+  intro p hp
+  by_cases hm : p.1 ∈ st.hs
+  · exact hin p hp hm
+  · obtain ⟨hp0, e⟩ := hout p hp hm
+    rw [e]
+    exact hc p hp0
+
+/-- the recount `for n in hs: self.calc_implicit(n)` runs over a Python *set*: its result (and whether it raises) depends on the
+    members only, not on the iteration order or on repetitions -/
+theorem standardize_recount_order_irrelevant (m : Mol) (ns ns' : List Nat) (h : ∀ x, x ∈ ns ↔ x ∈ ns') :
+    fixLoop ns m = fixLoop ns' m := by
+  rw [fixLoop_eq m ns m (fun _ => rfl), fixLoop_eq m ns' m (fun _ => rfl)]
+  have hall : ns.all (fun n => (calcImplicitMol m n).isSome) = ns'.all (fun n => (calcImplicitMol m n).isSome) := by
+    rw [Bool.eq_iff_iff]
+    simp only [List.all_eq_true]
+    exact ⟨fun hh x hx => hh x ((h x).mpr hx), fun hh x hx => hh x ((h x).mp hx)⟩
+  have hfe : fixEntry m ns = fixEntry m ns' := by
+    funext p
+    have : ns.contains p.1 = ns'.contains p.1 := by
+      rw [Bool.eq_iff_iff]
+      simp only [List.contains_iff_mem]
+      exact h p.1
+    simp only [fixEntry, this]
+  rw [hall, hfe]
+
+/-- trimethylamine–dimethylborane drawn with a covalent B–N bond, `CB(C)[N](C)(C)C` (B: three bonds, 0 H; N: four bonds, no
+    valence state): all counts are the rules' counts … -/
+def amineBorane : Mol :=
+  ⟨[(1, {z := 6, implH := some 3}), (2, {z := 5, implH := some 0}), (3, {z := 6, implH := some 3}), (4, {z := 7, implH := none}),
+    (5, {z := 6, implH := some 3}), (6, {z := 6, implH := some 3}), (7, {z := 6, implH := some 3})],
+   [(1, [(2, ⟨1, none⟩)]), (2, [(1, ⟨1, none⟩), (3, ⟨1, none⟩), (4, ⟨1, none⟩)]), (3, [(2, ⟨1, none⟩)]),
+    (4, [(2, ⟨1, none⟩), (5, ⟨1, none⟩), (6, ⟨1, none⟩), (7, ⟨1, none⟩)]), (5, [(4, ⟨1, none⟩)]), (6, [(4, ⟨1, none⟩)]), (7, [(4, ⟨1, none⟩)])]⟩
+
+example : HConsistent amineBorane := by decide +kernel
+
+/-- … and the rule `[B:1]-[N;D4:2]` (`atom_fix = {}`, `bonds_fix = ((1, 2, 8),)`) turns the bond into a coordinate one: both ends
+    lose valence and are recounted — B gets 1 H, N becomes a valid amine with 0 H; `check_valence` is empty afterwards -/
+example : (stdRule ⟨[], [(1, 2, 8)], []⟩ [[(1, 2), (2, 4)]] amineBorane).map
+    (fun m => (m.atoms.map (·.2.implH), (m.nbrs 2).map (·.2.order), checkValence m)) =
+    some ([some 3, some 1, some 3, some 0, some 3, some 3, some 3], [1, 1, 8], []) := by decide +kernel
+
+/-- methanol, a rule protonating the oxygen (`atom_fix = {1: (1, None)}`): O⁺ is recounted to 2 H; a second, overlapping mapping
+    is skipped through `seen` -/
+example : (stdRule ⟨[(1, 1, none)], [], []⟩ [[(1, 2)], [(1, 2)]]
+    ⟨[(1, {z := 6, implH := some 3}), (2, {z := 8, implH := some 1})], [(1, [(2, ⟨1, none⟩)]), (2, [(1, ⟨1, none⟩)])]⟩).map
+    (fun m => m.atoms.map fun p => (p.2.charge, p.2.implH)) = some [(0, some 3), (1, some 2)] := by decide +kernel
+
+end StandardizeRule
 
 end ChythonModel.Props.C04
